@@ -933,7 +933,7 @@ package rtcp
 //@ func (t *TransportLayerCC) packetLen() (result uint16)
 //@   safety[C09,C17]
 //@   mathint
-//@   requires nonnil: forall k :: 0 <= k && k < len(t.RecvDeltas) ==> t.RecvDeltas[k] != nil
+//@   requires[C09] nonnil: forall k :: 0 <= k && k < len(t.RecvDeltas) ==> t.RecvDeltas[k] != nil
 //@   ensures size: int(result) == (20 + 2*len(t.PacketChunks) + specDeltasLen(t.RecvDeltas, len(t.RecvDeltas))) % 65536
 //@   ensures nonneg: specDeltasLen(t.RecvDeltas, len(t.RecvDeltas)) >= 0
 //@   loop 1
@@ -942,14 +942,14 @@ package rtcp
 
 //@ func (t *TransportLayerCC) MarshalSize() (result int)
 //@   safety[C09,C17]
-//@   requires nonnil: forall k :: 0 <= k && k < len(t.RecvDeltas) ==> t.RecvDeltas[k] != nil
+//@   requires[C09] nonnil: forall k :: 0 <= k && k < len(t.RecvDeltas) ==> t.RecvDeltas[k] != nil
 //@   ensures size: 20 + 2*len(t.PacketChunks) + specDeltasLen(t.RecvDeltas, len(t.RecvDeltas)) <= 65532 ==> result == 20 + 2*len(t.PacketChunks) + specDeltasLen(t.RecvDeltas, len(t.RecvDeltas)) + specPad4(20 + 2*len(t.PacketChunks) + specDeltasLen(t.RecvDeltas, len(t.RecvDeltas)))
 //@   ensures aligned: result%4 == 0 && result >= 0 && result <= 65536
 //@   ensures nonneg: specDeltasLen(t.RecvDeltas, len(t.RecvDeltas)) >= 0
 
 //@ func (t *TransportLayerCC) Len() (result uint16)
 //@   safety[C09,C17]
-//@   requires nonnil: forall k :: 0 <= k && k < len(t.RecvDeltas) ==> t.RecvDeltas[k] != nil
+//@   requires[C09] nonnil: forall k :: 0 <= k && k < len(t.RecvDeltas) ==> t.RecvDeltas[k] != nil
 
 // ===================================================================================================
 // rfc8888.go
@@ -1001,6 +1001,7 @@ package rtcp
 //@   nocap
 //@   allocates[C01] 4*len(b.MetricBlocks)
 //@   ensures[C01,C04] fits: err == nil ==> len(rawPacket) >= 8 + 2*len(b.MetricBlocks) && len(b.MetricBlocks) <= 65536
+//@   ensures[C01] fitsalways: len(b.MetricBlocks) == 0 || len(rawPacket) >= 8 + 2*len(b.MetricBlocks)
 //@   ensures[C04] head: err == nil ==> b.MediaSSRC == be32(rawPacket, 0) && b.BeginSequence == be16(rawPacket, 4)
 //@   ensures[C04] numreports: err == nil ==> len(b.MetricBlocks) == int(be16(rawPacket, 6))
 //@   ensures[C04,C16] blocks: forall k :: err == nil && 0 <= k && k < len(b.MetricBlocks) ==> b.MetricBlocks[k] == specMetricDecode(be16(rawPacket, 8+2*k))
@@ -1149,7 +1150,8 @@ package rtcp
 //@   ensures[C06] allornothing: err != nil ==> len(result) == 0
 //@   ensures[C06] nonempty: err == nil ==> len(result) >= 1
 //@   loop 1
-//@     invariant[C06] isSuffix(rawData, old(rawData)) && (len(packets) == 0 ==> sameSlice(rawData, old(rawData)))
+//@     invariant[C06] isSuffix(rawData, old(rawData))
+//@     invariant[C06] (len(packets) == 0) <==> sameSlice(rawData, old(rawData))
 //@     invariant len(packets) >= 0
 //@     decreases len(rawData)
 
@@ -1206,7 +1208,8 @@ package rtcp
 //@     decreases len(rawData)
 
 //@ func (c CompoundPacket) MarshalSize() (result int)
-//@   safety[C09,C17]
+//@   safety[C09]
+//@   requires[C09] members: forall k :: 0 <= k && k < len(c) ==> c[k] != nil
 //@   mathint
 //@   loop 1
 //@     invariant 0 <= iter() && iter() <= len(c)
@@ -1223,7 +1226,7 @@ package rtcp
 //@   ensures[C08] nobytes: err != nil ==> len(result) == 0
 //@   ensures[C03,C05] size: err == nil ==> len(result) == 20 + 2*len(t.PacketChunks) + specDeltasLen(t.RecvDeltas, len(t.RecvDeltas)) + specPad4(20 + 2*len(t.PacketChunks) + specDeltasLen(t.RecvDeltas, len(t.RecvDeltas)))
 //@   ensures[C03,C05,C07] header: err == nil ==> be32(result, 0) == specHeaderWord(t.Header.Padding, t.Header.Count, uint8(t.Header.Type), t.Header.Length)
-//@   ensures[C03] fixed: err == nil ==> be32(result, 4) == t.SenderSSRC && be32(result, 8) == t.MediaSSRC && be16(result, 12) == t.BaseSequenceNumber && be16(result, 14) == t.PacketStatusCount && be24(result, 16) == t.ReferenceTime&0xFFFFFF && result[19] == t.FbPktCount
+//@   ensures[C03] fixed: err == nil && (!t.Header.Padding || specPad4(20 + 2*len(t.PacketChunks) + specDeltasLen(t.RecvDeltas, len(t.RecvDeltas))) > 0) ==> be32(result, 4) == t.SenderSSRC && be32(result, 8) == t.MediaSSRC && be16(result, 12) == t.BaseSequenceNumber && be16(result, 14) == t.PacketStatusCount && be24(result, 16) == t.ReferenceTime&0xFFFFFF && result[19] == t.FbPktCount
 //@   loop 1
 //@     invariant 0 <= iter() && iter() <= len(t.PacketChunks) && len(payload) == 16 + 2*len(t.PacketChunks) + specDeltasLen(t.RecvDeltas, len(t.RecvDeltas)) + specPad4(20 + 2*len(t.PacketChunks) + specDeltasLen(t.RecvDeltas, len(t.RecvDeltas))) && specDeltasLen(t.RecvDeltas, len(t.RecvDeltas)) >= 0
 //@     invariant[C03] be32(payload, 0) == t.SenderSSRC && be32(payload, 4) == t.MediaSSRC && be16(payload, 8) == t.BaseSequenceNumber && be16(payload, 10) == t.PacketStatusCount && be24(payload, 12) == t.ReferenceTime&0xFFFFFF && payload[15] == t.FbPktCount
